@@ -482,18 +482,12 @@ DRV_OP(dumpx) {
     fflush(stdout); std::cout.flush();
     pid_t pid = fork();
     if (pid == 0) {
+        // a FRESH process (exec): nothing of this process's HDF5 state — files it may have failed to release included — is inherited
         close(fds[0]);
-        setenv("TZ", a[1].c_str(), 1); tzset();
-        std::string r = guarded([&]() {
-            nix::File f = nix::File::open(state().path, nix::FileMode::ReadOnly);
-            std::string d = dumpFile(f);
-            f.close();
-            return d;
-        });
-        size_t off = 0;
-        while (off < r.size()) { ssize_t w = write(fds[1], r.data() + off, r.size() - off); if (w <= 0) break; off += (size_t) w; }
-        close(fds[1]);
-        _exit(0);
+        setenv("TZ", a[1].c_str(), 1);
+        dup2(fds[1], 1); close(fds[1]);
+        execl("/proc/self/exe", "nixdrv", "--dump", state().path.c_str(), (char *) nullptr);
+        _exit(127);
     }
     close(fds[1]);
     std::string r; char buf[65536]; ssize_t n;
